@@ -353,6 +353,10 @@ def run(prog, ctx):
     from rules.sem_routes import check_routes
 
     ctx.guarded("R04.7", prog.func("symmray.fermionic_core:tensordot_fermionic"), check_routes, prog, ctx)
+    ctx.rule("R04.9", "abstract evaluation: four-tensor rings give the same scalar along four contraction trees (two tree shapes, cyclic start)")
+    from rules.sem_routes import check_rings
+
+    ctx.guarded("R04.9", prog.func("symmray.fermionic_core:resolve_combined_oddpos"), check_rings, prog, ctx)
     ctx.rule("R04.8", "abstract evaluation of the label merge itself: sorted pair-free labels, sign = parity of inversions x cross-over, pairs "
                       "removed with a sign iff ket-then-bra, duplicates refused")
     from rules.sem_routes import check_label_merge
